@@ -1,6 +1,7 @@
 (** C08 -- add_block and demote_block preserve the invariant. *)
 From Coq Require Import Ascii String List Bool PArith NArith FMapPositive Permutation Lia.
 From PTBase Require Import Exn PyStr.
+From Gen Require Import GenFlags.
 From P Require Import Assoc GridEdit GridLemmas Inv.
 Import ListNotations.
 Open Scope list_scope.
@@ -45,7 +46,7 @@ Proof.
   assert (Hm : forall j, In j (clist g) -> c0 g j <> i /\ c1 g j <> i).
   { intros j Hj. destruct (i_ends g I j Hj) as [H0 H1]. split; intros E; [rewrite E in H0|rewrite E in H1]; contradiction. }
   destruct (bget g (bn g i)) as [old|] eqn:E.
-  - destruct (mem old (blist g)) eqn:M; [|discriminate]. inversion H; subst g'; clear H. apply mem_In in M.
+  - norefuse H. destruct (mem old (blist g)) eqn:M; [|discriminate]. inversion H; subst g'; clear H. apply mem_In in M.
     specialize (Hold old eq_refl).
     assert (Hno : forall j, In j (clist g) -> c0 g j <> old /\ c1 g j <> old).
     { intros j Hj. split; intro X.
@@ -92,6 +93,20 @@ Proof.
   - rewrite Pos.eqb_refl. intros old Ho. unfold bget in Ho. gs in Ho.
     pose proof (inv_bget g n old I Ho) as [Hb _]. apply (i_bfresh g I) in Hb.
     rewrite cn_new_block. destruct (Pos.eqb_spec old (next g)); [lia|]. apply P. exact Ho.
+Qed.
+
+(** the repaired variant refuses to replace a connected block: then no precondition is needed *)
+Theorem add_block_refusing_inv g n rk g' : add_block_refuses = true ->
+  Inv g -> add_block g n rk = Ok g' -> Inv g'.
+Proof.
+  intros F I H. apply (add_block_inv g n rk g' I); [|exact H].
+  intros old Ho. unfold add_block in H. destruct (rget g rk) as [r|]; [|discriminate].
+  unfold add_block_obj in H. rewrite bn_new_block, Pos.eqb_refl in H. unfold bget in *. gs in H. rewrite Ho in H.
+  rewrite F in H. cbn [andb] in H.
+  pose proof (proj1 (inv_bget g n old I Ho)) as Hb. apply (i_bfresh g I) in Hb.
+  destruct (Pos.eqb_spec old (next g)) as [E|_]; [lia|]. cbn [negb andb] in H.
+  rewrite cn_new_block in H. destruct (Pos.eqb_spec old (next g)); [lia|].
+  destruct (cn g old); [reflexivity|discriminate H].
 Qed.
 
 (** [demote_block(names)]: no precondition *)
